@@ -36,6 +36,22 @@ namespace xsimd
 {
     namespace detail
     {
+#ifdef XSIMD_VERIF
+        // Verification hook (off unless XSIMD_VERIF is defined): lets a test harness present an arbitrary
+        // CPUID/XGETBV source to the detector and bypass the process-wide detection cache.
+        struct verif_cpu_source
+        {
+            void (*cpuid)(int reg[4], int level, int count);
+            uint32_t (*xcr0_low)();
+            bool bypass_cache;
+        };
+        XSIMD_INLINE verif_cpu_source*& verif_cpu_source_slot() noexcept
+        {
+            static verif_cpu_source* slot = nullptr;
+            return slot;
+        }
+#endif
+
         struct supported_arch
         {
 
@@ -127,6 +143,10 @@ namespace xsimd
                 auto get_xcr0_low = []() noexcept
                 {
                     uint32_t xcr0;
+#ifdef XSIMD_VERIF
+                    if (verif_cpu_source_slot())
+                        return verif_cpu_source_slot()->xcr0_low();
+#endif
 
 #if defined(_MSC_VER) && _MSC_VER >= 1400
 
@@ -154,6 +174,13 @@ namespace xsimd
 
                 auto get_cpuid = [](int reg[4], int level, int count = 0) noexcept
                 {
+#ifdef XSIMD_VERIF
+                    if (verif_cpu_source_slot())
+                    {
+                        verif_cpu_source_slot()->cpuid(reg, level, count);
+                        return;
+                    }
+#endif
 
 #if defined(_MSC_VER)
                     __cpuidex(reg, level, count);
@@ -256,6 +283,10 @@ namespace xsimd
 
     XSIMD_INLINE detail::supported_arch available_architectures() noexcept
     {
+#ifdef XSIMD_VERIF
+        if (detail::verif_cpu_source_slot() && detail::verif_cpu_source_slot()->bypass_cache)
+            return detail::supported_arch();
+#endif
         static detail::supported_arch supported;
         return supported;
     }
